@@ -141,6 +141,9 @@ def _parse(text):
     return parse_text(text)
 
 
+# blocks that are split into several sub-blocks (a splitting instruction between arithmetic on the same stack slots)
+SPLIT11 = [B.I("SUB"), B.I("ADD"), B.I("DIV"), B.I("SHR"), B.I("LT"), B.I("GAS"), B.I("LOG0"), B.I("DUP1"),
+           B.I("SWAP1"), B.P(1), B.I("MSTORE")]
 EXTRA = [B.I(x) for x in ("MUL", "SDIV", "MOD", "SMOD", "LT", "SLT", "SAR", "MSTORE8", "KECCAK256")]
 
 
@@ -153,10 +156,12 @@ def unit_sets(tier):
         yield "mem-family(2)", list(families.mem_family(2)), base[:1]
         yield "rule-family(1)/8", list(families.rule_family(1))[::8], base[:1]
         yield "mem-family(2)/3@no-simp", list(families.mem_family(2))[::3], base[1:2]
+        yield "tree(SPLIT11,3)", list(B.tree(SPLIT11, 3)), base[:1] + [("-storage", "-greedy")]
     else:
         yield "tree(CORE+,3)", list(B.tree(B.CORE + EXTRA, 3)), allc
         yield "mem-family(2)", list(families.mem_family(2)), allc
         yield "rule-family(1)", list(families.rule_family(1)), base
+        yield "tree(SPLIT11,4)", list(B.tree(SPLIT11, 4)), allc
 
 
 def main(tier, seed, only=None):
